@@ -205,6 +205,9 @@ func (b *Builder) ResponseEl(r *Response) *etree.Element {
 		if r.StatusCode != nil {
 			sc := b.child(st, "p", "StatusCode")
 			sc.CreateAttr("Value", *r.StatusCode)
+			if r.SubStatus != nil {
+				b.child(sc, "p", "StatusCode").CreateAttr("Value", *r.SubStatus)
+			}
 		}
 	}
 	return el
